@@ -281,6 +281,98 @@ def ast_rules(run, rule, ast, table=True):
         run.violation(rule, "static_vptr|writers", "static v-table pointers are written by %s" % sorted(writers), None)
 
 
+def exact_route_rule(run, rule, ast, pols):
+    """Indirect policies promise that a virtual_ptr outlives updates, the first one included: a pointer built from an object of
+    exactly its static type holds the ADDRESS of the class's static v-table pointer, which is a constant of the program. On every
+    path of the constructor that is feasible when dynamic_id == static_id, nothing that update writes is read: neither a table
+    (vptrs / indirect_vptrs) nor the value of the static v-table pointer, in statements or in conditions.
+    Paths are enumerated over the instantiated body; `dynamic_id == static_id` is assumed true, every other test is open."""
+    n = 0
+    for f in ast.funcs:
+        if not f.get("body") or not re.search(r"virtual_ptr<.*>::virtual_ptr<", f["name"]) or f["name"].startswith("yorel::yomm2::method<"):
+            continue
+        ps = f.get("params") or []
+        if len(ps) != 1 or "virtual_ptr<" in (ps[0].get("type") or ""):
+            continue
+        pol = [p for p in pols if re.search(r", %s>::virtual_ptr<" % re.escape(witness.POLICIES[p]), f["name"])]
+        if not pol or pol[0] not in witness.INDIRECT:
+            continue
+        dyn, stat = set(), set()
+        for x in astq.walk(f["body"]):
+            if x.get("k") == "DeclStmt":
+                for d in x["decls"]:
+                    if d.get("init") is None:
+                        continue
+                    cs = [(y.get("callee") or "") for y in astq.walk(d["init"]) if y.get("k") in ("CallExpr", "CXXMemberCallExpr")]
+                    if any(re.search(r"::dynamic_type<", c) for c in cs):
+                        dyn.add(d["did"])
+                    elif any(re.search(r"::static_type<", c) for c in cs):
+                        stat.add(d["did"])
+        if not dyn or not stat:
+            run.broken.append("%s: the dynamic / static id locals were not found" % f["name"][:120])
+            continue
+
+        def side(e):
+            e = astq.strip(e)
+            if e is not None and e.get("k") == "DeclRefExpr":
+                return "d" if e["ref"]["did"] in dyn else "s" if e["ref"]["did"] in stat else None
+            return None
+
+        inits = {d["did"]: d["init"] for x in astq.walk(f["body"]) if x.get("k") == "DeclStmt" for d in x["decls"] if d.get("init") is not None}
+
+        def decide(c):
+            c = astq.strip(c)
+            if c is None:
+                return None
+            if c.get("k") == "DeclRefExpr" and c["ref"].get("storage") == "local" and c["ref"]["did"] in inits and "bool" in (c.get("t") or "bool"):
+                return decide(inits[c["ref"]["did"]])
+            if c.get("k") == "BinaryOperator" and c.get("op") in ("==", "!="):
+                if {side(c["c"][0]), side(c["c"][1])} == {"d", "s"}:
+                    return c["op"] == "=="
+                return None
+            if c.get("k") == "UnaryOperator" and c.get("op") == "!":
+                v = decide(c["c"][0])
+                return None if v is None else not v
+            if c.get("k") == "BinaryOperator" and c.get("op") in ("&&", "||"):
+                a, b = decide(c["c"][0]), decide(c["c"][1])
+                if c["op"] == "&&":
+                    return False if (a is False or b is False) else True if (a and b) else None
+                return True if (a is True or b is True) else False if (a is False and b is False) else None
+            return None
+        byid, parent = astq.index_nodes(f)
+
+        def update_state(x):
+            """reads of state that update writes, below x"""
+            out = []
+            for y in astq.walk(x):
+                nm = astq.refname(y) or ""
+                if y.get("k") in ("DeclRefExpr", "MemberExpr") and re.search(r"::(indirect_vptrs|vptrs)$", nm):
+                    out.append(nm.split("::")[-1])
+                elif y.get("k") in ("DeclRefExpr", "MemberExpr") and re.search(r"::static_vptr(<.*>)?$", nm):
+                    q = parent.get(y["id"])
+                    while q is not None and q.get("k") in ("ParenExpr",):
+                        q = parent.get(q["id"])
+                    if not (q is not None and q.get("k") == "UnaryOperator" and q.get("op") == "&"):
+                        out.append("the value of static_vptr")
+                elif y.get("k") in ("CallExpr", "CXXMemberCallExpr") and re.search(r"::dynamic_vptr<", y.get("callee") or ""):
+                    out.append("dynamic_vptr()")
+            return out
+        paths = astq.enum_paths(f["body"], decide, lambda x: bool(update_state(x)))
+        bad = []
+        for pth in paths:
+            for kind, x in pth["events"]:
+                bad.append((x, update_state(x), kind))
+        n += 1
+        ok = not bad
+        run.instance(rule, "%s: built from an object of exactly the static type, the pointer does not depend on anything update writes" % crules.short(f)[:110], (f["file"], f["line"]), ok=ok, detail={"paths": len(paths)})
+        if not ok:
+            x, what, kind = bad[0]
+            run.violation(rule, "virtual_ptr::virtual_ptr(Other&&)|exact-route-state", "%s: with dynamic_id == static_id a path still reads %s (%s `%s`): under an indirect policy a pointer built before the first update is no longer the address of the class's static v-table pointer" % (
+                crules.short(f)[:100], ", ".join(sorted(set(what))), "condition" if kind == "cond" else "statement", astq.text(x)[:70]), (f["file"], x.get("l", f["line"])))
+    if n == 0:
+        run.broken.append("exact_route_rule: no constructor-from-object of an indirect policy in the unit")
+
+
 def check(run):
     r = ["C09-static", "C09-lookup", "C09-copy", "C09-access", "C09-indirect"]
     pols = callpath.ALL_POLICIES
@@ -298,6 +390,11 @@ def check(run):
     src, _ = witness.call_matrix(["p_ind", "release", "p_map", "p_nohash"], ["r"], witness.update_block(["p_ind", "release", "p_map", "p_nohash"]))
     ast = astq.Ast(common.ast_json(run, src, "c09_ast", funcs="publish_vptrs|class_info::|generic_compiler::class_::|install_gv|decode_dispatch_data|_vptr"))
     ast_rules(run, r[4], ast)
+    from .. import callpath as _cp
+    for p in sorted(witness.INDIRECT):
+        rsrc, _ = _cp.unit_source(p, ["r", "V", "X"])
+        rast = astq.Ast(common.ast_json(run, rsrc, "c09_routes_%s" % p, funcs="virtual_ptr<"))
+        exact_route_rule(run, r[4], rast, [p])
     # publication: every entry of the pointer vector and of the table of addresses is rewritten by every update (a virtual_ptr
     # built after a later update must see that update's tables)
     from .. import crules
@@ -310,6 +407,8 @@ def check(run):
         del run.rules[x]
     run.assumptions += ["that the table cell holds the right class's v-table pointer is decided by publishing rules (C05-publish, C10-allids) and is a run-time value otherwise",
                         "equality of run-time dispatch results is not observed; methods read a virtual_ptr argument only through _vptr() (C01-walk leaf)"]
+    from .. import crules as _cr
+    _cr.facet_rules(run, "C09-facets")
     return run.finish(level="other", explanation="IR symbolic summaries of the value stored in the v-table-pointer field by every construction route of the witness matrix "
                       "(from exact type, from base reference, from shared_ptr lvalue / const lvalue / rvalue, final, make_virtual_shared, converting / copy / move "
                       "constructors, cast) for nine policies, compared with static_vptr<pointee> resp. the summary of Policy::dynamic_vptr; AST rules for the indirect table.")
